@@ -627,9 +627,15 @@ def _is_fresh(c, f, v, depth=0):
         if n in ALLOC_CALLS:
             return True
         g = c.func(n) if n else None
-        return g is not None and n in fresh_returning_names(c)
+        if g is None:
+            return False
+        if n in fresh_returning_names(c):
+            return True
+        # a constructor helper: whatever it returns (other than NULL) was allocated inside it
+        rets = [r.ops[0] for r in g.instrs() if r.op == 'ret' and r.ops]
+        return bool(rets) and all(r.kind == 'null' or _is_fresh(c, g, r, depth + 1) for r in rets) and any(r.kind != 'null' for r in rets)
     if d.op == 'phi':
-        return all(_is_fresh(c, f, x, depth + 1) for x in d.ops)
+        return all(x.kind == 'null' or _is_fresh(c, f, x, depth + 1) for x in d.ops) and any(x.kind != 'null' for x in d.ops)
     return False
 
 
